@@ -8,7 +8,7 @@ use qbase::{
     error::Error,
     frame::{DatagramFrame, io::ReceiveFrame},
     net::tx::{ArcSendWakers, Signals},
-    packet::Package,
+    packet::{Package, PacketContent},
 };
 pub use writer::*;
 
@@ -72,6 +72,21 @@ impl DatagramFlow {
     pub fn on_conn_error(&self, error: &Error) {
         self.incoming.on_conn_error(error);
         self.outgoing.on_conn_error(error);
+    }
+}
+
+/// The datagram queue as a packet source: each `dump` loads at most one datagram frame.
+///
+/// See [`DatagramOutgoing::try_load_data_into`] for more details.
+impl<P> Package<P> for DatagramFlow
+where
+    P: bytes::BufMut + ?Sized,
+    (DatagramFrame, Bytes): Package<P>,
+{
+    #[inline]
+    fn dump(&mut self, packet: &mut P) -> Result<PacketContent, Signals> {
+        self.try_load_data_into(packet)?;
+        Ok(PacketContent::EffectivePayload)
     }
 }
 
